@@ -1,0 +1,5 @@
+//go:build !verif
+
+package jen
+
+func verifHook(point string, f *File, arg string) {}
